@@ -304,6 +304,11 @@ def run(ctx) -> None:
     shapes.check_passthrough(ctx, "R3", "vcs.commit", "vcs.VCSAPI.commit", {"message": "commit_message"})
     shapes.check_passthrough(ctx, "R3", "vcs.commit", "vcs.VCSAPI.push_tag", {"tag_name": "new_version"})
     # add(path): the loop variable of a loop over the filepaths parameter
+    if not shapes.find_calls(prog, commit_fn, "vcs.VCSAPI.add"):
+        ctx.bad("R3", "vcs.commit: the configured paths are not staged one by one (no add(<path>) call)",
+                "vcs.commit no longer calls VCSAPI.add for the elements of `filepaths`: what is staged is not 'each staged path exactly the configured path' "
+                "(a path-less `add --update` stages every modified tracked file)", loc=commit_fn.loc(), witness={"tree": "--allow-dirty with an unrelated modified tracked file"},
+                what="vcs.commit: add() receives each element of `filepaths` unmodified")
     for call in shapes.find_calls(prog, commit_fn, "vcs.VCSAPI.add"):
         arg = call_arg(call, prog.function("vcs.VCSAPI.add"), "path")
         loops = [l for l in shapes.enclosing_loops(commit_fn, call) if isinstance(l, ast.For)]
@@ -328,6 +333,15 @@ def run(ctx) -> None:
     for call, t in prog.calls_in(upd):
         if t.kind == "func" and t.fn is not None and len(call.args) == 1 and unparse(call.args[0]) in ("commit_message", "tag_message"):
             sub_fns.add(t.fn.fq)
+    if not sub_fns:
+        for call, t in prog.calls_in(upd):
+            if t.kind == "func" and t.fn is not None and len(call.args) == 1 and not isinstance(call.args[0], ast.Name):
+                inner = [x.id for x in ast.walk(call.args[0]) if isinstance(x, ast.Name) and x.id in ("commit_message", "tag_message")]
+                if inner:
+                    ctx.bad("R3", f"cli.update: the --{inner[0].replace('_', '-')} text is edited before it becomes the message template",
+                            f"`{unparse(call)[:90]}`: the option value passes through `{unparse(call.args[0])[:60]}` on its way to the VCS; characters of the message as typed "
+                            f"(backslashes, quotes, non-ASCII text) do not reach git/hg verbatim", loc=upd.loc(call), witness={"--commit-message": "see C:\\temp\\new"},
+                            what=f"update: --{inner[0].replace('_', '-')} reaches the shorthand expander as given")
     ctx.require(len(sub_fns) == 1, f"update: shorthand expander for --commit-message/--tag-message not identified ({sorted(sub_fns)})")
     sub_fq = sub_fns.pop()
     sub_name = sub_fq.split(".", 1)[1]
